@@ -1,6 +1,7 @@
 import BddProofs.Reach
 import BddProofs.ErrGood
 import BddProofs.Bits
+import BddProofs.DriverGood
 /-! # C01 — canonical form: handle equality is exactly Boolean-function equality
 
 `Reachable s`: `s` is reached from a new manager (any storage / bucket / cache size) by any finite
@@ -79,6 +80,37 @@ theorem C01_handle_words (r : Ref) (h : r.idx < 2147483648) (w : BitVec 32) :
 /-- non-vacuity: the constant false is the word 3 -/
 example : Bits.ofRef Ref.zero = 3#32 ∧ Bits.toRef 3#32 = Ref.zero := by decide
 
+
+/-- **the states the correspondence check compares are states these theorems are about.**  The model
+driver (`Main.lean`) runs every state-changing request through `exec` (`BddModel/Driver.lean`), which
+first evaluates the request's precondition in the model's own state (handles name occupied cells, a
+`mk_node` request is ordered, cube / clause literals are over distinct variables, a cube to cofactor by is
+ascending) and refuses it otherwise.  Whatever list of requests it is sent — by the harness on the
+unchanged tree, after a divergence on a changed one, or by anyone else — the manager it holds is, after
+every request, a state in which handle equality is function equality (and the whole invariant `Good` of
+the other property files holds, together with the size-memo invariant): the hypotheses of the property
+theorems are *checked at run time, and the check is proved sufficient*, rather than assumed of the
+generated histories. -/
+theorem C01_every_driver_state {sb bb cb : Nat} {s0 : St} (h0 : St.newWith sb bb cb = .ok s0) (fuel : Nat)
+    (reqs : List Req) :
+    Good (runReqs fuel s0 reqs) ∧ SizeInv (runReqs fuel s0 reqs) ∧
+    ∀ r r' φ φ', Valid (runReqs fuel s0 reqs).nodes r φ → Valid (runReqs fuel s0 reqs).nodes r' φ' →
+      (r = r' ↔ φ = φ') :=
+  have h := run_reqs_from_new h0 fuel reqs
+  ⟨h.1, h.2, fun _ _ _ _ v v' => C01_canonical_good h.1 v v'⟩
+
+/-- one accepted request is one step of the history closure (a success, a caught failure, nothing, or
+an interrupted collection that only cleared caches); without interrupted collections the driver's state
+is literally a `ReachableF` state -/
+theorem C01_driver_step (fuel : Nat) {s : St} (r : Req) (hr : ReachableF s)
+    (hnot : ∀ w roots, r ≠ .heldgc w roots) : ReachableF (exec fuel s r).state :=
+  exec_reachableF fuel r hr hnot
+
+/-- non-vacuity: a request with a dead handle is refused and changes nothing; a `var` request is run -/
+example : (Req.and ⟨7, false⟩ Ref.one).ok s4 = false ∧ (exec 10 s4 (.and ⟨7, false⟩ Ref.one)).state = s4 ∧
+    (Req.and Ref.zero Ref.one).ok s4 = true :=
+  ⟨by decide, by unfold exec; rw [if_neg (by decide)]; rfl, by decide⟩
+
 end P
 #print axioms P.C01_canonical
 #print axioms P.C01_canonical_good
@@ -89,3 +121,5 @@ end P
 #print axioms P.reachable_good
 #print axioms P.C01_negation_on_words
 #print axioms P.C01_handle_words
+#print axioms P.C01_every_driver_state
+#print axioms P.C01_driver_step
